@@ -175,8 +175,13 @@ def stepRedis (st : DState) (conn : String) (node : Node) (name : String) (args 
           onKey st key (fun s => (actorsFor pref s).map (fun a => Label.exe a node c r)) s!"exe {conn} {name} => {rep}"
         | _, _ => refuse st s!"cannot parse backend command {name} / reply {rep}"
 
-def stepProxy (st : DState) (target : Proxy) (name : String) (args : List String) (rep : String) : DState × String :=
-  if name == "UMCTL" then
+partial def stepProxy (st : DState) (target : Proxy) (name : String) (args : List String) (rep : String) : DState × String :=
+  -- `UMFORWARD <remaining redirections> CMD args…`: the wrapped command is what the peer dispatches
+  if name == "UMFORWARD" then
+    match args with
+    | _ :: inner :: rest => stepProxy st target inner rest rep
+    | _ => refuse st "UMFORWARD without a command"
+  else if name == "UMCTL" then
     if rep != "+OK" then (st, "ok")
     else match args with
       | ["PRECHECK"] => onAll st (fun _ => [.dlvPreCheck]) "PRECHECK"
